@@ -65,6 +65,7 @@ Definition load_err (e : load_error) : str :=
   match e with
   | ELabel => L "label" | EDuplicate => L "duplicate" | EGlob => L "glob" | EOutput => L "output"
   | EBinOutput => L "binoutput" | EBinNotFile => L "binnotfile" | ETimeout => L "timeout"
+  | ENullTarget => L "nulltarget" | ENullAlias => L "nullalias"
   end.
 
 Definition show_scan {A} (f : A -> str) (r : scan_result A) : str :=
